@@ -190,6 +190,26 @@ theorem t_choke (ae) : Spec (handleWire .choke ae) := by
     exact spec_writeEvent _ c5 hg5.2
 
 
+theorem spec_delReq (ch : Nat) (ro : Bool) : Spec (delReq ch ro) := by
+  intro c hi
+  unfold delReq
+  rw [ok_bind, ok_get]
+  obtain ⟨rs', q, r, hd, hc, hmem⟩ := del_consistent hi.cons ch ro
+  rw [hd]
+  dsimp only
+  have hinv2 : Inv { c.s with requests := rs' } := by
+    refine ⟨hi.geom, hc, ?_⟩
+    intro h
+    have hm := members_nil_of_noinfo hi h
+    have : members rs' = [] := by
+      cases hr : members rs' with
+      | nil => rfl
+      | cons x xs => have := hmem x (by rw [hr]; simp); rw [hm] at this; cases this
+    simp [members] at this
+    exact this
+  refine ok_step_modify ⟨rfl, rfl, rfl⟩ hinv2 ?_
+  exact spec_pure _ _ hinv2
+
 theorem t_reject (ae i b l) : Spec (handleWire (.reject i b l) ae) := by
   intro c hi
   unfold handleWire
@@ -203,12 +223,10 @@ theorem t_reject (ae i b l) : Spec (handleWire (.reject i b l) ae) := by
   have hinfo : c.s.info = true := by simpa using hinf
   refine ok_step_specG (specG_toChunk i b) hi hinfo ?_
   intro ch c1 hg1 hinfo1
-  obtain ⟨rs', q, r, hd, hc, -⟩ := del_consistent hi.cons ch true
-  rw [hd]
-  dsimp only
-  have hinv2 : Inv { c1.s with requests := rs' } := inv_setReq hg1.2 hinfo1 hc
-  refine ok_step_modify ⟨rfl, rfl, rfl⟩ hinv2 ?_
-  refine (?_ : SpecG _) _ hinv2 hinfo1
+  refine ok_step_spec (spec_delReq ch true) hg1.2 ?_
+  intro qr c2 hg2
+  have hinfo2 : c2.s.info = true := by rw [hg2.1.1]; exact hinfo1
+  refine (?_ : SpecG _) _ hg2.2 hinfo2
   specg_auto
 
 theorem t_piece (ae i b d) : Spec (handleWire (.piece i b d) ae) := by
@@ -226,14 +244,11 @@ theorem t_piece (ae i b d) : Spec (handleWire (.piece i b d) ae) := by
   · simp only [ok_bind, ok_failTag]; exact hg0.2
   refine ok_step_specG (specG_toChunk i b) hg0.2 hinfo0 ?_
   intro ch c1 hg1 hinfo1
-  obtain ⟨rs', q, r, hd, hc, -⟩ := del_consistent hi.cons ch false
-  rw [hd]
-  dsimp only
-  have hinv2 : Inv { c1.s with requests := rs' } := inv_setReq hg1.2 hinfo1 hc
-  refine ok_step_modify ⟨rfl, rfl, rfl⟩ hinv2 ?_
-  refine (?_ : SpecG _) _ hinv2 hinfo1
+  refine ok_step_spec (spec_delReq ch false) hg1.2 ?_
+  intro qr c2 hg2
+  have hinfo2 : c2.s.info = true := by rw [hg2.1.1]; exact hinfo1
+  refine (?_ : SpecG _) _ hg2.2 hinfo2
   specg_auto
-
 
 /-- every decoded message: no fault, `Inv` and the geometry are kept (also on `return err`) -/
 theorem spec_handleWire (m : Msg) (ae : AddEnv) : Spec (handleWire m ae) := by
